@@ -29,7 +29,8 @@ def build_argv(case, ex):
     rfile, qfile = f"r_{fs}.cmap", f"q_{fs}.cmap"
     if ex.get("self_file"):            # one CMAP file holding references and queries, given as both -r and -q
         rfile = qfile = f"c_{fs}.cmap"
-    argv = ["-r", rfile, "-q", qfile, "-o", ex.get("out_name", "out.xmap"), "-oM", ex.get("mode", "best")]
+    argv = ["-r", rfile, "-q", qfile] + ([] if ex.get("stdout") else ["-o", ex.get("out_name", "out.xmap")]) \
+        + ["-oM", ex.get("mode", "best")]
     if ex.get("cpus") is not None:
         argv += ["-c", str(ex["cpus"])]
     cfg = dict(case.get("config", {}))
@@ -60,6 +61,10 @@ def write_inputs(case, workdir):
             with open(os.path.join(workdir, f"c_{name}.cmap"), "w") as f:
                 f.write(fmt.write_cmap(both, fs.get("c_layout")))
     return texts
+
+
+def _out_name(ex):
+    return "<stdout>" if ex.get("stdout") else ex.get("out_name", "out.xmap")
 
 
 def _is_input(n):
@@ -98,6 +103,8 @@ def _clean_outputs(workdir):
 
 def canonical_names(out_name):
     """Where the run is expected to put its files -> the canonical names the oracles use."""
+    if out_name == "<stdout>":       # -o omitted: main XMAP on stdout (captured), extra files named after '<stdout>'
+        return {"stdout.xmap": "out.xmap", "<stdout>_1": "out_1.xmap", "<stdout>_2": "out_2.xmap"}
     base, ext = os.path.splitext(out_name)
     return {os.path.normpath(out_name): "out.xmap", os.path.normpath(f"{base}_1{ext}"): "out_1.xmap",
             os.path.normpath(f"{base}_2{ext}"): "out_2.xmap"}
@@ -163,7 +170,7 @@ def _child(case, ex, workdir, wfd):
         err = os.open("stderr.txt", os.O_WRONLY | os.O_CREAT | os.O_TRUNC, 0o600)
         os.dup2(err, 2)
         os.close(err)
-        devnull = os.open(os.devnull, os.O_WRONLY)
+        devnull = os.open("stdout.xmap" if ex.get("stdout") else os.devnull, os.O_WRONLY | os.O_CREAT | os.O_TRUNC, 0o600)
         os.dup2(devnull, 1)
         os.close(devnull)
         import faulthandler
@@ -177,10 +184,10 @@ def _child(case, ex, workdir, wfd):
         pt.cpu_count = lambda: cc
 
         dec = sim.DecisionSource(ex.get("sched_seed", 0), ex.get("decisions"))
-        out_name = ex.get("out_name", "out.xmap")
-        if os.path.dirname(out_name):
+        out_name = _out_name(ex)
+        if os.path.dirname(out_name) and not ex.get("stdout"):
             os.makedirs(os.path.dirname(out_name), exist_ok=True)
-        st = sim.SimState(dec, ex.get("profile", "serial"), watch_paths=[out_name])
+        st = sim.SimState(dec, ex.get("profile", "serial"), watch_paths=[] if ex.get("stdout") else [out_name])
         st.extra_close.add(wfd)
         st.tapped = []
         st.fd_margin = ex.get("fd_margin")
@@ -195,7 +202,9 @@ def _child(case, ex, workdir, wfd):
         orig_write = XmapReader.writeAlignments
 
         def write_tap(self, file, alignmentResults, args):
-            writes.append({"file": os.path.basename(getattr(file, "name", "?")),
+            fname = str(getattr(file, "name", "?"))
+            canon = dict(canonical_names(_out_name(ex)), **{"<stdout>": "out.xmap"})
+            writes.append({"file": canon.get(os.path.normpath(fname), os.path.basename(fname)),
                            "rows": [taps.row_summary(r) for r in alignmentResults.rows]})
             return orig_write(self, file, alignmentResults, args)
 
@@ -246,10 +255,14 @@ def _child(case, ex, workdir, wfd):
                               "where": "worker-task" if remote else "parent",
                               "frame": (remote or {}).get("frame", ""),
                               "tb": "".join(traceback.format_exception(type(e), e, e.__traceback__))[-1500:]}
+        try:
+            sys.stdout.flush()
+        except Exception:  # noqa: BLE001
+            pass
         outcome["short_reads"] = sum(o.short_reads for o in stream_objs)
         outcome["stream_reads"] = sum(o.reads for o in stream_objs)
         # what a subsequent reader sees the moment run() returned - before any gc, through fresh handles
-        files = collect_outputs(".", ex.get("out_name", "out.xmap"), ex.get("mode", "best"), bool(ex.get("stale")))
+        files = collect_outputs(".", _out_name(ex), ex.get("mode", "best"), bool(ex.get("stale")))
         outcome["files"] = files
         outcome["writes"] = writes
         outcome["tapped"] = st.tapped
@@ -325,7 +338,7 @@ def run_execution(case, ex, workdir):
     if not ex.get("keep_outputs"):
         _clean_outputs(workdir)           # keep_outputs: the run meets whatever the previous execution left at its paths
     if ex.get("stale"):
-        plant_stale(workdir, ex.get("out_name", "out.xmap"))
+        plant_stale(workdir, _out_name(ex))
     rfd, wfd = os.pipe()
     sys.stdout.flush()
     sys.stderr.flush()
@@ -359,7 +372,7 @@ def run_execution(case, ex, workdir):
             pass
     outcome["wall_s"] = time.time() - t0
     # late view: after the world process (and every handle it held) is gone
-    outcome["late_files"] = collect_outputs(workdir, ex.get("out_name", "out.xmap"), ex.get("mode", "best"), bool(ex.get("stale")))
+    outcome["late_files"] = collect_outputs(workdir, _out_name(ex), ex.get("mode", "best"), bool(ex.get("stale")))
     if outcome["status"] == "harness" and outcome.get("exc") and not outcome["exc"].get("tb"):
         outcome["exc"]["tb"] = _stderr(workdir)
     return outcome
